@@ -36,7 +36,7 @@ ASSUMPTIONS = [
     "tolerance 1e-10 on sums, 1e-12 on transposes",
 ]
 PROBES = ["mortar_nonmatching", "mortar_one_side_only", "mortar_perturbed_nodes", "secondary_refined", "secondary_copy", "primary_refined", "primary_coarser",
-          "primary_after_nonmatching_mortar", "secondary_after_nonmatching_mortar", "mortar_after_primary", "three_kinds_in_one_run", "immersed_tip", "ge_4_replacements"]
+          "primary_after_nonmatching_mortar", "secondary_after_nonmatching_mortar", "mortar_after_primary", "three_kinds_in_one_run", "immersed_tip", "ge_4_replacements", "mortar_sides_given_in_other_order"]
 
 TOL = 1e-10
 
@@ -176,7 +176,9 @@ def run_history_c26(ch, tr: Trace) -> None:
     def op_mortar():
         sides = list(intf.side_grids.items())
         both = ch.flag(2, 3)
-        chosen = sides if both else [ch.choice(sides)]
+        chosen = ch.shuffle(sides) if both else [ch.choice(sides)]  # the order of the dict handed in is the caller's choice
+        if both and chosen[0][0] != sides[0][0]:
+            tr.probe("mortar_sides_given_in_other_order")
         new = {}
         desc = []
         for s, g in chosen:
